@@ -55,8 +55,8 @@ Definition steps (recheck : bool) (s : st) : list st :=
    | PTop => if done_ s then [mkSt (done_ s) (buf s) (closed s) PSendErr (remaining s) (drain s) (cons s) (received s)]
              else [mkSt (done_ s) (buf s) (closed s) PCalling (remaining s) (drain s) (cons s) (received s)]
    | PCalling =>
-       (* the child observes a cancelled context or not *)
-       (if done_ s then [mkSt (done_ s) (buf s) (closed s) PSendErr (remaining s) (drain s) (cons s) (received s)] else [])
+       (* the child fails - because it observes a cancelled context, or on its own (a storage error) - or answers *)
+       [mkSt (done_ s) (buf s) (closed s) PSendErr (remaining s) (drain s) (cons s) (received s)]
        ++ match remaining s with
           | S r => [mkSt (done_ s) (buf s) (closed s) PSendData r (drain s) (cons s) (received s)]
           | O => [mkSt (done_ s) (buf s) (closed s) PClose 0 (drain s) (cons s) (received s)]
